@@ -14,7 +14,7 @@ ASSUMPTIONS = [
     'weights positive; perturbed knots keep the vector non-decreasing',
 ]
 OUTSIDE = ['shapes larger than the listed ones', 'simultaneous changes of several components']
-BOUNDS = {'quick': 'curve p2 (4 pts, 2-D), surface (1,2) 2x3 net, volume (1,1,1) 2x2x2, rational and not; every coordinate / weight / knot perturbed by symbolic delta; degree/size/kind/rationality flips; affinely mapped knot vectors; deep copy after an edit through a getter list',
+BOUNDS = {'quick': 'curve p2 (4 pts, 2-D), surface (1,2) 2x3 net, volume (1,1,1) 2x2x2, rational and not; every coordinate / weight / knot perturbed by symbolic delta; degree/size/kind/rationality flips; affinely mapped knot vectors; deep copy after an edit through a getter list; tuple knot vectors',
           'thorough': 'additionally curve p3 with double knot, surface (2,2), volume (1,2,1)'}
 
 TOL = F(1, 1000)
